@@ -1528,6 +1528,128 @@ def gen_util(tree, out, report):
     except Exception as e:
         report["binary_search_sum_ge"] = "untranslatable: internal " + type(e).__name__ + ": " + str(e)
 
+
+# ------------------------------------------------------------------------------------------------ model_runner.py: ModelBackend
+BSRC = "summer2/runner/model_runner.py"
+BHEADER = """-- GENERATED by harness/translate/gen_rates.py from /repo (summer2/runner/model_runner.py). Do not edit.
+import Summer.Model.Run
+set_option linter.unusedVariables false
+namespace Summer.Generated.BackendSrc
+open Summer Summer.Generated Summer.Build Summer.Run
+
+section
+variable {α : Type}
+"""
+BACKEND_RENDERING = """/-- `model_runner.py::ModelBackend.prepare_structural` with `_build_compartment_category_map`, `_precompute_flow_maps`,
+`_build_infectious_multipliers_lookup`, `_get_force_idx`, `_get_infection_multiplier_indices` inlined at their call sites (statement by
+statement; the comment before each group of `let`s quotes the Python it renders).  `c.idx` is the position of the compartment in
+`model.compartments` (`get_runner` calls `_update_compartment_indices()` first); a flow end that is not a compartment of the model
+cannot be built through the API and is reported as an error here.  The class tests (`isinstance(f, flows.BaseInfectionFlow)`,
+`f.is_death_flow`, `type(f) in (...)`, `type(f) == ...`) are the kind lists of `Generated/Tables.lean`, read from the same statements by
+`gen_tables.py`.  The process type 'both' (frequency and density flows together) makes `build_get_infectious_multipliers` raise when the
+runner is built: the backend cannot represent it and the last guard stands for that. -/
+def prepare_structural (m : Model α) : Res Backend := do
+  -- self._iter_non_function_flows = [(i, f) for i, f in enumerate(self.model.flows)]
+  let flows := m.flows
+  -- f.source.idx / f.dest.idx
+  let source_idx ← flows.mapM (fun f => match f.src with
+    | none => pure (none : Option Nat)
+    | some c => match compIdx m.comps c with
+      | some i => pure (some i)
+      | none => fail "flow source is not a compartment of the model")
+  let dest_idx ← flows.mapM (fun f => match f.dst with
+    | none => pure (none : Option Nat)
+    | some c => match compIdx m.comps c with
+      | some i => pure (some i)
+      | none => fail "flow dest is not a compartment of the model")
+  -- non_func_pops = np.array([f.source.idx if f.source else 0 for i, f in self._iter_non_function_flows]); self.population_idx = non_func_pops
+  let population_idx := source_idx.map (fun o => o.getD 0)
+  -- _precompute_flow_maps: for i, f in ...: if f.source: f_neg_map.append((i, f.source.idx)); if f.dest: f_pos_map.append((i, f.dest.idx))
+  let f_neg_map := (source_idx.zipIdx.filterMap (fun x => x.1.map (fun s => (x.2, s))))
+  let f_pos_map := (dest_idx.zipIdx.filterMap (fun x => x.1.map (fun d => (x.2, d))))
+  -- _build_compartment_category_map: for i, category in enumerate(self.model._mixing_categories): cat_idx = [j for j, comp in enumerate(compartments)
+  --   if all(comp.has_stratum(k, v) for k, v in category.items())]; all_cat_idx.append(cat_idx)
+  let all_cat_idx := m.mixingCats.map (fun category => idxWhere m.comps (fun comp => category.all (fun kv => comp.hasStratum kv.1 kv.2)))
+  -- self._population_category_indexer = pop_cat_idx = np.stack(all_cat_idx)   (rows of equal length)
+  let w0 := (all_cat_idx.head?.map (·.length)).getD 0
+  guardE (all_cat_idx.all (fun r => r.length == w0)) "np.stack: mixing categories of unequal size"
+  -- self._category_lookup[j] = i   (inside the same loops: the last category that contains j; `np.empty` elsewhere, read as 0)
+  let category_lookup := (List.range m.comps.length).map (fun j =>
+    (all_cat_idx.zipIdx.foldl (fun acc r => if r.1.contains j then r.2 else acc) 0))
+  let ncats := m.mixingCats.length
+  -- for strain in self.model._disease_strains: strain_filter = {'strain': strain} if 'strain' in stratifications else {};
+  --   strain_infectious_comps = query_compartments(strain_filter, tags='infectious', as_idx=True)
+  let strain_infectious_indexers := m.strains.map (strainInfectiousIdx m)
+  --   strain_cat_idx = pop_cat_idx[vcat(pop_cat_idx)]; tlookup[strain_infectious_comps] = range(len(...)); strain_cat_idx = tlookup[strain_cat_idx];
+  --   strain_cat_idx = strain_cat_idx.reshape((ncats, int(strain_cat_idx.size / ncats)))
+  let strain_category_indexers ← strain_infectious_indexers.mapM (fun strain_infectious_comps => do
+    let flat := all_cat_idx.flatten.filter (fun j => strain_infectious_comps.contains j)
+    let loc := flat.map (fun j => (indexOf? strain_infectious_comps j).getD 0)
+    let w := loc.length / ncats
+    guardE (ncats * w == loc.length) "reshape: infectious compartments do not divide into categories"
+    pure (reshapeRows loc ncats w))
+  -- self.infectious_flow_indices = np.array([i for i, f in ... if isinstance(f, flows.BaseInfectionFlow)])
+  let infectious_flow_indices := idxWhere flows (fun f => infectionKinds.contains f.kind)
+  -- _build_infectious_multipliers_lookup: for i, idx in enumerate(self.infectious_flow_indices): f = self.model.flows[idx];
+  --   cat_idx, strain = self._get_infection_multiplier_indices(f.source, f.dest)   [idx = self._category_lookup[source.idx];
+  --   strain = dest.strata.get('strain', DEFAULT_DISEASE_STRAIN)]; strain_idx = self.model._disease_strains.index(strain); lookups.append([strain_idx, cat_idx])
+  let inf_flows := flows.filter (fun f => infectionKinds.contains f.kind)
+  let lookups ← inf_flows.mapM (fun f => do
+    let cat_idx := match f.src with
+      | some c => category_lookup.getD ((compIdx m.comps c).getD 0) 0
+      | none => 0
+    let strain := match f.dst with
+      | some c => (alookup c.strata "strain").getD "default"
+      | none => "default"
+    match indexOf? m.strains strain with
+    | some strain_idx => pure (strain_idx, cat_idx)
+    | none => fail "strain of infection flow destination is not a model strain")
+  --   if isinstance(f, InfectionFrequencyFlow): has_freq = True elif isinstance(f, InfectionDensityFlow): has_dens = True
+  let has_freq := flows.any (fun f => f.kind == .infFreq)
+  let has_dens := flows.any (fun f => f.kind == .infDens)
+  -- 'both' -> build_get_infectious_multipliers raises NotImplementedError
+  guardE (!(has_freq && has_dens)) "no support for mixed infection frequency/density"
+  pure { nComps := m.comps.length, nFlows := flows.length, populationIdx := population_idx,
+         -- self._non_pop_flow_idx / _crude_birth_idx / _replacement_flow_idx / death_flow_indices
+         nonPopIdx := idxWhere flows (fun f => nonPopKinds.contains f.kind),
+         crudeIdx := idxWhere flows (fun f => crudeKinds.contains f.kind),
+         replIdx := idxWhere flows (fun f => replKinds.contains f.kind),
+         deathIdx := idxWhere flows (fun f => deathKinds.contains f.kind),
+         infFlowIdx := infectious_flow_indices, posMap := f_pos_map, negMap := f_neg_map, catIdx := all_cat_idx,
+         categoryLookup := category_lookup, strainInfIdx := strain_infectious_indexers, strainCatIdx := strain_category_indexers,
+         -- self._infect_strain_lookup_idx = self._full_table[:, 0]; self._infect_cat_lookup_idx = self._full_table[:, 1]
+         infStrainLookup := lookups.map (·.1), infCatLookup := lookups.map (·.2),
+         -- self._infection_process_type: 'freq' / 'dens' / None
+         procType := if has_freq then some true else if has_dens then some false else none }
+"""
+
+
+def gen_backend(tree, out, report):
+    """`ModelBackend` (all methods but `__init__`): every statement is compared with the pinned text in `model_runner_pins.json`; the emitted
+    rendering is fixed"""
+    try:
+        pins = json.load(open(os.path.join(os.path.dirname(os.path.abspath(__file__)), "model_runner_pins.json")))
+        cls = [n for n in tree.body if isinstance(n, ast.ClassDef) and n.name == "ModelBackend"]
+        if not cls:
+            raise Untranslatable("class ModelBackend not found")
+        methods = {n.name: n for n in cls[0].body if isinstance(n, ast.FunctionDef) and n.name != "__init__"}
+        if sorted(methods) != sorted(pins):
+            raise Untranslatable("ModelBackend methods are " + str(sorted(methods)))
+        for fname, (args, wanted) in pins.items():
+            fn = methods[fname]
+            if [a.arg for a in fn.args.args] != args:
+                raise Untranslatable(f"signature of ModelBackend.{fname}")
+            body = [ast.unparse(st) for st in fn.body if not (isinstance(st, ast.Expr) and isinstance(st.value, ast.Constant))]
+            if body != wanted:
+                k = next((i for i, (a, b_) in enumerate(zip(body, wanted)) if a != b_), min(len(body), len(wanted)))
+                raise Untranslatable(f"ModelBackend.{fname}: statement {k} is not the expected text: " + (body[k][:120] if k < len(body) else "<missing>"))
+        out.append(BACKEND_RENDERING)
+        report["ModelBackend.prepare_structural"] = "ok"
+    except Untranslatable as e:
+        report["ModelBackend.prepare_structural"] = "untranslatable: " + str(e)
+    except Exception as e:
+        report["ModelBackend.prepare_structural"] = "untranslatable: internal " + type(e).__name__ + ": " + str(e)
+
 IHEADER = """-- GENERATED by harness/translate/gen_rates.py from /repo (summer2/runner/jax/stratify.py). Do not edit.
 import Summer.Model.JaxPrelude
 import Summer.Model.Run
@@ -1742,6 +1864,21 @@ def main():
     if old != utext:
         with open(upath, "w") as f:
             f.write(utext)
+    # model_runner.py
+    bout = [BHEADER]
+    try:
+        with open(os.path.join(REPO, BSRC)) as f:
+            btree = ast.parse(f.read())
+        gen_backend(btree, bout, report)
+    except Exception as e:
+        report["model_runner.py"] = "untranslatable: " + type(e).__name__ + ": " + str(e)
+    bout.append("end\nend Summer.Generated.BackendSrc\n")
+    btext = "\n".join(bout)
+    bpath = os.path.join(OUT, "BackendSrc.lean")
+    old = open(bpath).read() if os.path.exists(bpath) else None
+    if old != btext:
+        with open(bpath, "w") as f:
+            f.write(btext)
     print(json.dumps(report))
 
 
